@@ -918,7 +918,10 @@ func (ea ExpressionAttribute) formatExpression() (exp []string) {
 
 func (ea ExpressionAttribute) Write(w io.Writer, indent int) (err error) {
 	lines := ea.formatExpression()
-	if len(lines) == 1 {
+	if len(lines) == 1 && endsWithLineComment([]byte(lines[0])) {
+		// A line comment would comment out the closing brace: the expression gets a line of its own.
+		lines[0] = "\t" + lines[0]
+	} else if len(lines) == 1 {
 		return writeIndent(w, indent, ea.Name, `={ `, lines[0], ` }`)
 	}
 
